@@ -73,10 +73,13 @@ class MultiSetEdit(SequenceEdit):
         """The set of nodes in :obj:`from_set` that do not exist in :obj:`to_set`."""
         to_match = from_set & to_set
         self._edits: List[Edit] = [Match(n, n, 0) for n in to_match.elements()]
+        # The matcher indexes its nodes by equality, so match positions rather than the (possibly duplicate) nodes:
+        self._to_remove_nodes: List[TreeNode] = list(self.to_remove.elements())
+        self._to_insert_nodes: List[TreeNode] = list(self.to_insert.elements())
         self._matcher = WeightedBipartiteMatcher(
-            from_nodes=self.to_remove.elements(),
-            to_nodes=self.to_insert.elements(),
-            get_edge=lambda f, t: f.edits(t)
+            from_nodes=range(len(self._to_remove_nodes)),
+            to_nodes=range(len(self._to_insert_nodes)),
+            get_edge=lambda f, t: self._to_remove_nodes[f].edits(self._to_insert_nodes[t])
         )
         super().__init__(
             from_node=from_node,
@@ -93,8 +96,8 @@ class MultiSetEdit(SequenceEdit):
         insert_matched: HashableCounter[TreeNode] = HashableCounter()
         for (rem, (ins, edit)) in self._matcher.matching.items():
             yield edit
-            remove_matched[rem] += 1
-            insert_matched[ins] += 1
+            remove_matched[self._to_remove_nodes[rem]] += 1
+            insert_matched[self._to_insert_nodes[ins]] += 1
         for rm in (self.to_remove - remove_matched).elements():
             yield Remove(to_remove=rm, remove_from=self.from_node)
         for ins in (self.to_insert - insert_matched).elements():
